@@ -156,6 +156,7 @@ func (c *compactCleaner) cleanSegment(seg *segment, keyOffsets *sync.Map, hw int
 			if err := cleaned.WriteMessageSet(ms, entries); err != nil {
 				return nil, removed, err
 			}
+			verifCrashPoint("compact.after_write_cleaned")
 			// Maintain start offset for each new leader epoch.
 			if leaderEpoch > epochCache.LastLeaderEpoch() {
 				if err := epochCache.Assign(leaderEpoch, offset); err != nil {
@@ -175,6 +176,7 @@ func (c *compactCleaner) cleanSegment(seg *segment, keyOffsets *sync.Map, hw int
 	if err = cleaned.Replace(seg); err != nil {
 		return nil, removed, err
 	}
+	verifCrashPoint("compact.after_replace")
 	return cleaned, removed, nil
 }
 
@@ -227,6 +229,7 @@ func cleanupEmptySegment(new, old *segment) error {
 	if err := new.Delete(); err != nil {
 		return err
 	}
+	verifCrashPoint("compact.after_delete_cleaned")
 	// Also delete the old segment since it's been compacted. Set the replaced
 	// flag since this is in the read path.
 	old.Lock()
